@@ -263,9 +263,34 @@ func (r *encRunner) op(enc *io.Encoder, op string) (obs string, grown string) {
 	panic("c14: bad encoder op " + op)
 }
 
+// coders this executor released to the real pools and has not seen again.  The pools outlive a
+// case, so every case first drains them: Get until nothing tracked is left (Get makes a new
+// coder only when it can steal nothing), so that "not in this case's list" really means
+// "never used by a previous case".
+var (
+	trackedEnc = map[*io.Encoder]bool{}
+	trackedDec = map[*io.Decoder]bool{}
+)
+
+func drainPools() {
+	for n := 0; len(trackedEnc) > 0 && n < 4*len(trackedEnc)+256; n++ {
+		delete(trackedEnc, io.GetEncoder())
+	}
+	for n := 0; len(trackedDec) > 0 && n < 4*len(trackedDec)+256; n++ {
+		delete(trackedDec, io.GetDecoder())
+	}
+	for k := range trackedEnc { // dropped by the GC
+		delete(trackedEnc, k)
+	}
+	for k := range trackedDec {
+		delete(trackedDec, k)
+	}
+}
+
 func runEseq(c *c14Case, obs *c14Obs) {
 	debug.SetGCPercent(-1) // the pool is cleared by the GC; keep released coders around
 	defer debug.SetGCPercent(100)
+	drainPools()
 	var pool []*io.Encoder // model order: newest first
 	ever := map[*io.Encoder]bool{}
 	objs := map[string]interface{}{}
@@ -285,6 +310,7 @@ func runEseq(c *c14Case, obs *c14Obs) {
 					break
 				}
 			}
+			delete(trackedEnc, enc)
 			so.WriterAtGet = enc.Writer != nil
 			so.EverWriter = ever[enc]
 		} else {
@@ -309,6 +335,7 @@ func runEseq(c *c14Case, obs *c14Obs) {
 		}
 		if s.Free {
 			io.FreeEncoder(enc)
+			trackedEnc[enc] = true
 			pool = append([]*io.Encoder{enc}, pool...)
 		}
 		obs.Sessions = append(obs.Sessions, so)
@@ -329,7 +356,12 @@ func decErrClass(err error) string {
 	return "other"
 }
 
-func renderIface(v interface{}) string {
+func renderIface(v interface{}) string { return renderIfaceD(v, 0) }
+
+func renderIfaceD(v interface{}, depth int) string {
+	if depth > 16 {
+		return "..."
+	}
 	switch x := v.(type) {
 	case nil:
 		return "nil"
@@ -359,9 +391,14 @@ func renderIface(v interface{}) string {
 	case []interface{}:
 		parts := make([]string, len(x))
 		for i, e := range x {
-			parts[i] = renderIface(e)
+			parts[i] = renderIfaceD(e, depth+1)
 		}
 		return "[" + strings.Join(parts, ",") + "]"
+	case *[]interface{}:
+		if x == nil {
+			return "&nil"
+		}
+		return "&" + renderIfaceD(*x, depth+1)
 	}
 	return "?" + reflect.TypeOf(v).String()
 }
@@ -403,28 +440,32 @@ func optsString(dec *io.Decoder) string {
 }
 
 type decRunner struct {
-	lastInput []byte // set by RB / RR when the next operation is the first read of that input
-	justReset bool
+	lastInput  []byte // set by RB / RR when the next operation is the first read of that input
+	justReset  bool
+	resetSince bool // Reset()/Simple() was called since the last Decode (or the decoder is new)
 }
 
 func (r *decRunner) op(dec *io.Decoder, op string, wantFresh bool) (obs string, fresh string) {
 	switch {
 	case op == "D":
-		if wantFresh && r.justReset && dec.Error == nil {
+		if wantFresh && r.justReset && r.resetSince && dec.Error == nil {
 			// what a brand-new decoder in the same mode with the same options gives on this input
 			f := io.NewDecoder(append([]byte(nil), r.lastInput...)).Simple(dec.IsSimple())
 			f.LongType, f.RealType, f.MapType, f.StructType, f.ListType =
 				dec.LongType, dec.RealType, dec.MapType, dec.StructType, dec.ListType
 			fresh = decodeIface(f)
 		}
-		r.justReset = false
+		r.justReset, r.resetSince = false, false
 		return decodeIface(dec), fresh
 	case op == "R":
 		dec.Reset()
+		r.resetSince = true
 	case op == "S0":
 		dec.Simple(false)
+		r.resetSince = true
 	case op == "S1":
 		dec.Simple(true)
+		r.resetSince = true
 	case strings.HasPrefix(op, "RB"):
 		b, _ := hex.DecodeString(op[2:])
 		dec.ResetBytes(b)
@@ -461,6 +502,7 @@ func (r *decRunner) op(dec *io.Decoder, op string, wantFresh bool) (obs string, 
 func runDseq(c *c14Case, obs *c14Obs) {
 	debug.SetGCPercent(-1)
 	defer debug.SetGCPercent(100)
+	drainPools()
 	var pool []*io.Decoder
 	for _, s := range c.Sessions {
 		so := sessObs{Got: -2}
@@ -470,6 +512,7 @@ func runDseq(c *c14Case, obs *c14Obs) {
 		switch {
 		case pooled:
 			dec = io.GetDecoder()
+			delete(trackedDec, dec)
 			so.Got = -1
 			for k, e := range pool {
 				if e == dec {
@@ -481,11 +524,11 @@ func runDseq(c *c14Case, obs *c14Obs) {
 		case strings.HasPrefix(s.Get, "newdec:"):
 			b, _ := hex.DecodeString(s.Get[7:])
 			dec = io.NewDecoder(b)
-			r.lastInput, r.justReset = b, true
+			r.lastInput, r.justReset, r.resetSince = b, true, true
 		case strings.HasPrefix(s.Get, "newreader:"):
 			b, _ := hex.DecodeString(s.Get[10:])
 			dec = io.NewDecoderFromReader(&chunkReader{append([]byte(nil), b...), 3})
-			r.lastInput, r.justReset = b, true
+			r.lastInput, r.justReset, r.resetSince = b, true, true
 		}
 		for _, op := range s.Ops {
 			o, f := r.op(dec, op, !pooled)
@@ -502,6 +545,7 @@ func runDseq(c *c14Case, obs *c14Obs) {
 		}
 		if s.Free {
 			io.FreeDecoder(dec)
+			trackedDec[dec] = true
 			pool = append([]*io.Decoder{dec}, pool...)
 		}
 		obs.Sessions = append(obs.Sessions, so)
